@@ -11,6 +11,9 @@ from asyncio import events, tasks as _tasks
 from vfw.prelude import is_engine_exc, refuel, StepBound
 
 
+ITERATION_BOUND = 1500   # loop iterations per scenario: endless retry loops in virtual time end here
+
+
 class Deadlock(Exception):
     """The loop would block forever: nothing ready, no timer."""
 
@@ -18,8 +21,12 @@ class Deadlock(Exception):
 class _VSel:
     def __init__(self, loop):
         self.loop = loop
+        self.n = 0
 
     def select(self, timeout):
+        self.n += 1
+        if self.n > ITERATION_BOUND:
+            raise Deadlock('no quiescence within %d loop iterations at t=%r' % (ITERATION_BOUND, self.loop._vtime))
         if timeout is None:
             raise Deadlock('loop idle forever at t=%r' % (self.loop._vtime,))
         if timeout > 0:
